@@ -495,6 +495,20 @@ theorem shape_guard_real (sh S : Int × Int) (os : Int) (hos : 0 < os) :
     shapeTooBig (R := ℝ) (some sh) S os = true ↔ sh.1 * os > S.1 ∨ sh.2 * os > S.2 :=
   shapeTooBig_iff (fun _ => rfl) gt_real sh S os hos
 
+/-- **Too large shapes are refused, accepted ones fit — at ℂ/ℝ with the real `>`, no hypothesis about the comparison left**
+(instances of `refuses_larger_shape`, `accepted_shape_fits`). -/
+theorem refuses_larger_shape_real (fs : List (Fld ℂ)) (W0 W1 : Int) (dx0 dx1 du0 du1 wl z : ℝ) (os : Int) (hos : 0 < os)
+    (sh : Int × Int) (scratch : Option (Arr ℂ))
+    (hbig : sh.1 * os > (fftShape dx0 dx1 du0 du1 z wl os).1 ∨ sh.2 * os > (fftShape dx0 dx1 du0 du1 z wl os).2) :
+    propagateFft 1 fs false W0 W1 dx0 dx1 du0 du1 wl z os (some sh) scratch = FftOut.valueError :=
+  refuses_larger_shape (fun _ => rfl) gt_real 1 fs W0 W1 dx0 dx1 du0 du1 wl z os hos sh scratch hbig
+
+theorem accepted_shape_fits_real (fs : List (Fld ℂ)) (W0 W1 : Int) (dx0 dx1 du0 du1 wl z : ℝ) (os : Int) (hos : 0 < os)
+    (sh : Int × Int) (scratch : Option (Arr ℂ)) (lam : ℝ) (S0 S1 : Int) (so : Int × Int) (g : Fld ℂ)
+    (h : propagateFft 1 fs false W0 W1 dx0 dx1 du0 du1 wl z os (some sh) scratch = FftOut.ok lam S0 S1 so g) :
+    so = (sh.1 * os, sh.2 * os) ∧ so.1 ≤ S0 ∧ so.2 ≤ S1 ∧ (S0, S1) = fftShape dx0 dx1 du0 du1 z wl os :=
+  accepted_shape_fits (fun _ => rfl) gt_real 1 fs W0 W1 dx0 dx1 du0 du1 wl z os hos sh scratch lam S0 S1 so g h
+
 /-- non-vacuity of `fft_eq_propagate_dft`: a 2x2 field on a 4x4 grid (`dx = du = 1/2`, `z = lambda = 1`, `os = 1`) is accepted -/
 example : ∃ lam g, propagateFft (K := ℂ) (R := ℝ) 1 [⟨⟨2, 2, fun i j => (i + 2 * j + 1 : ℤ)⟩, 0, 0⟩] false 2 2 (1/2) (1/2) (1/2) (1/2) 1 1 1
     none none = FftOut.ok lam 4 4 (4, 4) g := by
@@ -517,6 +531,18 @@ example : (∃ lam g, propagateFft (K := ℂ) (R := ℝ) 1 [⟨⟨2, 2, fun i j 
   · simp only [propagateFft, Bool.false_eq_true, if_false, fftShape_aniso_example, hb, hs, fftShapeOut_some, FftOut.ok.injEq, true_and]
     exact ⟨_, _, rfl, by decide, rfl⟩
   · simp only [Fld.within, Fld.extent, arrayExtent_eq]; decide
+/-- the headline theorem applied to that instance: every hypothesis of `fft_eq_propagate_dft` (accepted call with explicit shape and a
+dirty scratch buffer, second branch of `hcons`, positivity, `hW`, `hfit`, `hpos`, `hso`) is discharged, for both output samples -/
+example (lam : ℝ) (g : Fld ℂ)
+    (h : propagateFft (K := ℂ) (R := ℝ) 1 [⟨⟨2, 2, fun i j => (i + 2 * j + 1 : ℤ)⟩, 0, 0⟩] false 2 2 (1/2) (1/2) (1/2) (1/4) 1 1 1
+      (some (1, 2)) (some ⟨5, 9, fun _ _ => 3⟩) = FftOut.ok lam 4 8 (1, 2) g)
+    (i j : Int) (hi : 0 ≤ i ∧ i < 1) (hj : 0 ≤ j ∧ j < 2) :=
+  fft_eq_propagate_dft [⟨⟨2, 2, fun i j => (i + 2 * j + 1 : ℤ)⟩, 0, 0⟩] 2 2 (1/2) (1/2) (1/2) (1/4) 1 1 1 (some (1, 2))
+    (some ⟨5, 9, fun _ _ => 3⟩) lam 4 8 (1, 2) g h (Or.inr (by norm_num)) (by norm_num) (by norm_num) (by norm_num) (by decide)
+    (by decide) (by decide)
+    (by intro f hf; simp only [List.mem_singleton] at hf; subst hf; simp only [Fld.within, Fld.extent, arrayExtent_eq]; decide)
+    (by intro f hf; simp only [List.mem_singleton] at hf; subst hf; decide)
+    (by decide) i j hi hj
 end complex
 
 /-! ## Known finding (open): anisotropic sampling
